@@ -157,11 +157,12 @@ HEADER = """import enum
 from dataclasses import dataclass, field
 from datetime import date
 from pathlib import PurePosixPath
-from typing import Annotated, Any, Final, List, Optional, Tuple, Union
+from typing import Annotated, Any, Dict, Final, List, Optional, Tuple, Union
 from mashumaro import DataClassDictMixin
 from mashumaro.config import (BaseConfig, TO_DICT_ADD_OMIT_NONE_FLAG, TO_DICT_ADD_BY_ALIAS_FLAG,
                               ADD_DIALECT_SUPPORT, ADD_SERIALIZATION_CONTEXT)
 from mashumaro.dialect import Dialect
+from mashumaro.mixins.toml import DataClassTOMLMixin
 class Color(enum.Enum):
     RED = 1
     BLUE = 2
@@ -221,9 +222,10 @@ def config_lines(o: Opts, cfgd_name: str | None) -> list[str]:
 
 
 def class_source(name: str, fields: list, o: Opts | None, extra_lines: list[str] | None = None,
-                 cfgd_name: str = "CfgD", mixin: bool = True) -> str:
-    """o = None: the option-free twin.  mixin=False: a plain dataclass (compiled by whichever class meets it first)."""
-    src = f"@dataclass(kw_only=True)\nclass {name}" + ("(DataClassDictMixin)" if mixin else "") + ":\n"
+                 cfgd_name: str = "CfgD", mixin: bool = True, base: str | None = None) -> str:
+    """o = None: the option-free twin (also: no Config of its own).  mixin=False: a plain dataclass (compiled by whichever
+    class meets it first).  base: the dataclass it derives from (fields = own fields only)."""
+    src = f"@dataclass(kw_only=True)\nclass {name}" + (f"({base})" if base else ("(DataClassDictMixin)" if mixin else "")) + ":\n"
     lines = [field_line(f, o is None) if isinstance(f, FieldSpec) else f for f in fields] + (extra_lines or [])
     src += ("\n".join(lines) if lines else "    pass") + "\n"
     if o is not None:
@@ -252,9 +254,11 @@ def flat_source(fields: list[FieldSpec], o: Opts) -> str:
         src += dialect_source("CallD", o.call)
     if o.cfgd is not None:
         src += dialect_source("CfgD", o.cfgd)
-    if o.dd is not None:
+    if o.dd is not None and o.entry != "toml":
         src += dialect_source("DefD", o.dd)
-    src += class_source("X", fields, o)
+    # entry "toml": the class derives from DataClassTOMLMixin, whose builder gets default_dialect=TOMLDialect
+    # (omit_none = True): the fourth option level on the mixin path
+    src += class_source("X", fields, o, base="DataClassTOMLMixin" if o.entry == "toml" else None)
     src += class_source("XPlain", fields, None)
     return src
 
@@ -311,6 +315,9 @@ def run_entry(o: Opts, ns: dict, cls: str, inst):
         from mashumaro.codecs.basic import BasicEncoder
         enc = BasicEncoder(ns[cls], default_dialect=ns["DefD"] if o.dd is not None else None)
         return enc.encode(inst)
+    if o.entry == "toml":
+        import tomllib
+        return tomllib.loads(inst.to_toml(**call_kwargs(o, ns)))
     return inst.to_dict(**call_kwargs(o, ns))
 
 
@@ -403,13 +410,17 @@ NAMES = ["zeta", "b", "alpha", "m", "a", "yy", "k2", "B", "c_", "x"]
 ALIASES = ["A", "zz", "b_alias", "0k", "Key", "aa", "it's", "q"]
 
 
-def gen_fields(rng, nmax=6, collide=0.08) -> list[FieldSpec]:
+TOML_SHAPES = ("int", "float", "str", "bool", "optint", "any", "int_none", "list", "optlist", "ann_optint",
+               "fin_ann_optint", "ann_any", "wide_union")       # values identical in to_dict and after a TOML round trip
+
+
+def gen_fields(rng, nmax=6, collide=0.08, shapes=None) -> list[FieldSpec]:
     n = rng.randint(1, nmax)
     names = rng.sample(NAMES, n)
     aliases = rng.sample(ALIASES, len(ALIASES))
     fields = []
     for i, nm in enumerate(names):
-        sh = rng.choice(SHAPES)
+        sh = rng.choice(SHAPES if shapes is None else [x for x in SHAPES if x.key in shapes])
         dk, ds = rng.choice(sh.defaults)
         al = None
         if rng.random() < 0.5:
@@ -622,6 +633,9 @@ def eval_flat(ns: dict, src: str, fields, o: Opts, vals, want_coq=True) -> Eval:
     e = effective(o)
     expected = project(e, fields, defaults, inst, plain)
     ev.expected = expected
+    if o.entry == "toml" and any(v is None for v in expected.values()):
+        ev.kind = "toml-unrepresentable"       # TOML has no null: outside (tomli_w raises TypeError)
+        return ev
     try:
         observed = run_entry(o, ns, "X", inst)
     except Exception as ex:  # the property promises a mapping
@@ -630,7 +644,12 @@ def eval_flat(ns: dict, src: str, fields, o: Opts, vals, want_coq=True) -> Eval:
         ev.what = (f"to_dict({kwargs_src(o)}) raised {type(ex).__name__}: {ex}; projection of the plain output "
                    f"{plain!r} is {expected!r}")
         ev.kind = "raised-" + type(ex).__name__
-        if isinstance(ex, TypeError):
+        if o.entry == "toml" and isinstance(ex, TypeError) and "not TOML serializable" in str(ex):
+            # the encoder met a None: the mapping handed to it kept a None-valued key.  Under the signature of
+            # call-dialect-vs-flag-defaults that is the listed finding (the mapping predicted for it contains None)
+            if d14_signature(o) and any(v is None for v in project(effective_d14(o), fields, defaults, inst, plain).values()):
+                ev.kind = "call-dialect-vs-flag-defaults"
+        elif isinstance(ex, TypeError):
             if want_coq:
                 ev.coq = coq_case(o, fields, defaults, inst, plain, None, real_nullables(ns, "X", fields))
         return ev
@@ -697,12 +716,15 @@ class DcField:
     alias: str | None
     omit: bool
     many: bool = False        # List[<class>] with default_factory=list
+    mapping: bool = False     # Dict[str, <class>] with default_factory=dict
 
     def ty(self, prefix: str) -> str:
         t = prefix + str(self.members[0]) if len(self.members) == 1 else \
             "Union[" + ", ".join(prefix + str(m) for m in self.members) + "]"
         if self.many:
             return f"List[{t}]"
+        if self.mapping:
+            return f"Dict[str, {t}]"
         return f"Optional[{t}]" if self.optional else t
 
 
@@ -711,13 +733,17 @@ class NCls:
     o: Opts                   # class-level part only (cfgd, cfg, sort, flags, lazy)
     fields: tuple             # of FieldSpec | DcField
     mixin: bool = True        # False: plain @dataclass (with a Config of its own iff o sets anything)
+    parent: int | None = None # derives from that class: the first n_inh fields and (unless own_cfg) o are inherited
+    n_inh: int = 0
+    own_cfg: bool = True
+    cfg_owner: int = -1       # class whose CfgD<id> dialect class o.cfgd refers to
 
 
 LEAF_NESTED = [("optint", "val", "None"), ("int", "val", "1"), ("date", "no", None), ("optdate", "val", "None"),
                ("any", "val", "None"), ("int_none", "val", "None")]
 
 
-def gen_table(rng, unions: bool = True) -> list[NCls]:
+def gen_table(rng, unions: bool = True, inherit: bool = True) -> list[NCls]:
     """class 0 is a mixin root; the others are mixin subclasses, plain dataclasses with a Config, or plain
     dataclasses without any Config; class i only refers to classes j > i"""
     n = rng.randint(2, 5)
@@ -732,10 +758,24 @@ def gen_table(rng, unions: bool = True) -> list[NCls]:
             fon, fba, fdl, fcx = (rng.random() < 0.5 for _ in range(4))
             o = Opts(cfgd=gen_ns(rng, 0.45), cfg=gen_ns(rng, 0.3) or ("U", "U", "U"), sort=rng.random() < 0.3,
                      fon=fon, fba=fba, fdl=fdl, fcx=fcx, lazy=mixin and rng.random() < 0.2, cfg_style=gen_cfg_style(rng))
-        names = rng.sample(NAMES, rng.randint(1, 4))
+        later = list(range(cid + 1, n))
+        parent = rng.choice(later) if (inherit and later and rng.random() < 0.3) else None
+        if parent is not None and len(table[parent].fields) > len(NAMES) - 3:
+            parent = None                                # no free field names left for a further subclass
+        inherited: tuple = ()
+        own_cfg, cfg_owner = True, cid
+        if parent is not None:
+            pc = table[parent]
+            mixin, inherited = pc.mixin, pc.fields
+            if bare or rng.random() < 0.5:           # no Config of its own: the parent's Config is inherited
+                o, own_cfg, cfg_owner = pc.o, False, pc.cfg_owner
+            else:                                    # own Config; it keeps at least the parent's keyword flags
+                o = replace(o, fon=o.fon or pc.o.fon, fba=o.fba or pc.o.fba, fdl=o.fdl or pc.o.fdl, fcx=o.fcx or pc.o.fcx,
+                            lazy=o.lazy and mixin)
+        taken = {f.name for f in inherited}
+        names = rng.sample([x for x in NAMES if x not in taken], rng.randint(1, 3 if inherited else 4))   # >= 3 names are free
         aliases = rng.sample(ALIASES, len(ALIASES))
         fields = []
-        later = list(range(cid + 1, n))
         for i, nm in enumerate(names):
             al = aliases[i] if rng.random() < 0.4 else None
             if later and (rng.random() < 0.55 or (cid == 0 and i == 0)):
@@ -743,19 +783,29 @@ def gen_table(rng, unions: bool = True) -> list[NCls]:
                 if unions and len(later) >= 2 and k < 0.3:
                     mem = tuple(rng.sample(later, rng.randint(2, min(3, len(later)))))
                     fields.append(DcField(nm, mem, False, al, False))
-                elif k < 0.5:
+                elif k < 0.45:
                     fields.append(DcField(nm, (rng.choice(later),), False, al, rng.random() < 0.05, many=True))
+                elif k < 0.58:
+                    fields.append(DcField(nm, (rng.choice(later),), False, al, rng.random() < 0.05, mapping=True))
                 else:
                     fields.append(DcField(nm, (rng.choice(later),), rng.random() < 0.4, al, rng.random() < 0.05))
             else:
                 sh, dk, ds = rng.choice(LEAF_NESTED)
                 fields.append(FieldSpec(nm, sh, dk, ds, al, rng.random() < 0.08))
-        table[cid] = NCls(o, tuple(fields), mixin)
+        table[cid] = NCls(o, tuple(inherited) + tuple(fields), mixin, parent, len(inherited), own_cfg, cfg_owner)
     return table
 
 
+def descendants(table, m: int) -> list[int]:
+    out = [m]
+    for cid in range(len(table) - 1, -1, -1):
+        if table[cid].parent in out and cid not in out:
+            out.append(cid)
+    return out
+
+
 def refs(c: NCls) -> set:
-    return {m for f in c.fields if isinstance(f, DcField) for m in f.members}
+    return {m for f in c.fields if isinstance(f, DcField) for m in f.members} | ({c.parent} if c.parent is not None else set())
 
 
 def reachable(table, cid: int) -> set:
@@ -787,6 +837,8 @@ def nfield_line(f, plain: bool) -> str:
     args = []
     if f.many:
         args.append("default_factory=list")
+    elif f.mapping:
+        args.append("default_factory=dict")
     elif f.optional:
         args.append("default=None")
     md = {}
@@ -806,16 +858,18 @@ def table_source(table: list[NCls], call, order: list[int]) -> str:
         src += dialect_source("CallD", call)
     for cid in order:
         c = table[cid]
-        if c.o.cfgd is not None:
+        if c.own_cfg and c.o.cfgd is not None:
             src += dialect_source(f"CfgD{cid}", c.o.cfgd)
-        src += class_source(f"C{cid}", [nfield_line(f, False) for f in c.fields], c.o, cfgd_name=f"CfgD{cid}", mixin=c.mixin)
+        src += class_source(f"C{cid}", [nfield_line(f, False) for f in c.fields[c.n_inh:]], c.o if c.own_cfg else None,
+                            cfgd_name=f"CfgD{cid}", mixin=c.mixin, base=f"C{c.parent}" if c.parent is not None else None)
     for cid in order:
         c = table[cid]
-        src += class_source(f"P{cid}", [nfield_line(f, True) for f in c.fields], None, mixin=c.mixin)
+        src += class_source(f"P{cid}", [nfield_line(f, True) for f in c.fields[c.n_inh:]], None, mixin=c.mixin,
+                            base=f"P{c.parent}" if c.parent is not None else None)
     return src
 
 
-def gen_tree(rng, table, cid: int):
+def gen_tree(rng, table, cid: int, subs: bool = True, depth: int = 0):
     """(cid, [child]) where child = python source of a leaf value | None | (cid, [...]) | [ (cid, [...]), ... ]"""
     ch = []
     for f in table[cid].fields:
@@ -823,12 +877,22 @@ def gen_tree(rng, table, cid: int):
             cands = [v for v in f.sh.values if v != "None" or f.nullable]
             ch.append("None" if (f.nullable and rng.random() < 0.5) else rng.choice(cands))
         elif f.many:
-            ch.append([gen_tree(rng, table, f.members[0]) for _ in range(rng.choice([0, 1, 1, 2]))])
+            ch.append([gen_tree(rng, table, pick_cls(rng, table, f.members[0], subs and depth < 3), subs, depth + 1) for _ in range(rng.choice([0, 1, 1, 2]))])
+        elif f.mapping:
+            ch.append({f"k{i}": gen_tree(rng, table, pick_cls(rng, table, f.members[0], subs and depth < 3), subs, depth + 1)
+                       for i in range(rng.choice([0, 1, 1, 2]))})
         elif f.optional and rng.random() < 0.3:
             ch.append("None")
         else:
-            ch.append(gen_tree(rng, table, rng.choice(f.members)))
+            ch.append(gen_tree(rng, table, pick_cls(rng, table, rng.choice(f.members), subs and depth < 3), subs, depth + 1))
     return (cid, ch)
+
+
+def pick_cls(rng, table, m: int, subs: bool) -> int:
+    """the class of the value of a field declared with class m: m itself or (subs) one of its subclasses"""
+    # only for mixin classes: a plain subclass has no method of its own unless some field declares it, so its
+    # instances in a parent-typed field are serialized as the parent (also in the option-free twin)
+    return rng.choice(descendants(table, m)) if subs and table[m].mixin and rng.random() < 0.4 else m
 
 
 def tree_src(table, t, prefix: str) -> str:
@@ -839,6 +903,8 @@ def tree_src(table, t, prefix: str) -> str:
             v = x
         elif isinstance(x, list):
             v = "[" + ", ".join(tree_src(table, y, prefix) for y in x) + "]"
+        elif isinstance(x, dict):
+            v = "{" + ", ".join(f"{k!r}: {tree_src(table, y, prefix)}" for k, y in x.items()) + "}"
         else:
             v = tree_src(table, x, prefix)
         parts.append(f"{f.name}={v}")
@@ -861,7 +927,8 @@ def walk(table, ns, t, inst, plain, members, outer, avail, mode: str, hits: dict
     c = table[cid]
     fl_spec = both_flags(outer, cls_flags(c))
     fl = fl_spec
-    if len(members) > 1:
+    if codec is None:
+        # the generated call names the flags of the DECLARED member (first one whose call the value's class accepts)
         fl_impl = None
         for m in members:
             cand = both_flags(outer, cls_flags(table[m]))
@@ -869,7 +936,7 @@ def walk(table, ns, t, inst, plain, members, outer, avail, mode: str, hits: dict
                 fl_impl = cand
                 break
         if fl_impl != fl_spec:
-            hits["d8b"] = True
+            hits["sub" if cid not in members else "d8b"] = True
             if mode == "kf":
                 fl = fl_impl
     o = replace(c.o, kon=avail[0] if fl[0] else None, kba=avail[1] if fl[1] else None, call=avail[2] if fl[2] else None)
@@ -890,6 +957,8 @@ def walk(table, ns, t, inst, plain, members, outer, avail, mode: str, hits: dict
                 defaults[f.name] = eval(f.dsrc, ns)()
         elif f.many:
             defaults[f.name] = []
+        elif f.mapping:
+            defaults[f.name] = {}
         elif f.optional:
             defaults[f.name] = None
     sub = {}
@@ -897,6 +966,9 @@ def walk(table, ns, t, inst, plain, members, outer, avail, mode: str, hits: dict
         if isinstance(x, list):
             sub[f.name] = [walk(table, ns, y, iy, py, f.members, cls_flags(c), avail2, mode, hits, codec)
                            for y, iy, py in zip(x, getattr(inst, f.name), plain[f.name])]
+        elif isinstance(x, dict):
+            sub[f.name] = {k: walk(table, ns, y, getattr(inst, f.name)[k], plain[f.name][k], f.members, cls_flags(c), avail2,
+                                   mode, hits, codec) for k, y in x.items()}
         elif isinstance(f, DcField) and not isinstance(x, str):
             sub[f.name] = walk(table, ns, x, getattr(inst, f.name), plain[f.name], f.members, cls_flags(c), avail2, mode, hits, codec)
     return project(e, fields, defaults, inst, plain, sub)
@@ -906,7 +978,7 @@ def walk(table, ns, t, inst, plain, members, outer, avail, mode: str, hits: dict
 
 NESTED_DEFS = COQ_DEFS.split("Definition case_ok")[0] + """
 Definition G a b c d := {| g_on := a; g_ba := b; g_dl := c; g_cx := d |}.
-Definition C mx cfgd cfg srt fl fs := {| c_mixin := mx; c_cfgd := cfgd; c_cfg := cfg; c_sort := srt; c_flags := fl; c_fields := fs |}.
+Definition C mx cfgd cfg srt fl fs par := {| c_mixin := mx; c_cfgd := cfgd; c_cfg := cfg; c_sort := srt; c_flags := fl; c_fields := fs; c_parent := par |}.
 Definition K a b c := {| kw_on := a; kw_ba := b; kw_dl := c |}.
 Definition ncase_ok (c: list cls * (nat * node) * kwv * option pv * bool) : bool :=
   match c with (ct, (root, n), k, expected, py_in_domain) =>
@@ -927,7 +999,7 @@ Definition ccase_ok (c: list cls * (nat * node) * option ns * option pv * bool) 
 
 def coq_dcfield(f: DcField) -> str:
     al = "None" if f.alias is None else f"(Some {coq_str(f.alias)})"
-    d = "(DFac (POpq 1))" if f.many else ("(DVal PNone)" if f.optional else "DNo")   # [] is POpq (1 + 0)
+    d = "(DFac (POpq 1))" if (f.many or f.mapping) else ("(DVal PNone)" if f.optional else "DNo")   # [] is POpq (1 + 0)
     return f"(P {coq_str(f.name)} {al} {'TyOptional' if f.optional else 'TyPlain'} false {d} {coq_bool(f.omit)})"
 
 
@@ -943,7 +1015,8 @@ def coq_table(table, ns, enc) -> str:
                 fs.append(f"({coq_dcfield(f)}, [" + "; ".join(f"{m}%nat" for m in f.members) + "])")
         o = c.o
         out.append(f"(C {coq_bool(c.mixin)} {coq_ns(o.cfgd)} (N {o.cfg[0]} {o.cfg[1]} {o.cfg[2]}) {coq_bool(o.sort)} "
-                   f"(G {coq_bool(o.fon)} {coq_bool(o.fba)} {coq_bool(o.fdl)} {coq_bool(o.fcx)}) {coq_list(fs)})")
+                   f"(G {coq_bool(o.fon)} {coq_bool(o.fba)} {coq_bool(o.fdl)} {coq_bool(o.fcx)}) {coq_list(fs)} "
+                   + ("None" if c.parent is None else f"(Some {c.parent}%nat)") + ")")
     return coq_list(out)
 
 
@@ -956,6 +1029,9 @@ def coq_node(table, t, inst, plain, enc) -> str:
         elif isinstance(x, list):
             parts.append("(NList " + coq_list(coq_node(table, y, iy, py, enc)
                                               for y, iy, py in zip(x, getattr(inst, f.name), plain[f.name])) + ")")
+        elif isinstance(x, dict):
+            parts.append("(NDict " + coq_list(f"({coq_str(k)}, {coq_node(table, y, getattr(inst, f.name)[k], plain[f.name][k], enc)})"
+                                              for k, y in x.items()) + ")")
         else:
             parts.append(coq_node(table, x, getattr(inst, f.name), plain[f.name], enc))
     return f"(NObj {cid} {coq_list(parts)})"
@@ -1016,7 +1092,8 @@ def eval_nested(ctx: vlib.Ctx, table, order, src, ns, rid: int, t, kon, kba, rca
             h2: dict = {}
             predicted = walk(table, ns, t, inst, plain, (rid,), ALL_FLAGS, avail, "kf", h2)
             if typed(predicted) == typed(observed):
-                kind = "union-member-flags" if hits.get("d8b") else "call-dialect-vs-flag-defaults"
+                kind = ("subclass-instance-flags" if hits.get("sub") else
+                        "union-member-flags" if hits.get("d8b") else "call-dialect-vs-flag-defaults")
         ctx.fail(f"nested {rep['instance']}.to_dict({kwargs_src(ro)}) = {observed!r}, hereditary projection of the plain "
                  f"output is {expected!r}"[:500], rep, {"kind": kind, "entry": stream})
     ctx.hist("form", "nested-kf-zone" if hits else "nested-in-domain")
@@ -1061,7 +1138,7 @@ def run_codec_nested(ctx: vlib.Ctx, ccases: list[str], cinfo: list):
         src = table_source(table, None, order) + (dialect_source("DefD", dd) if dd is not None else "")
         ns = load(src)
         for rid in rng.sample(range(len(table)), min(2, len(table))):
-            t = gen_tree(rng, table, rid)
+            t = gen_tree(rng, table, rid, subs=False)
             use_json = rng.random() < 0.3
             rep = {"kind_of_case": "codec-nested", "source": src, "cls": f"C{rid}", "twin": f"P{rid}",
                    "instance": tree_src(table, t, "C"), "twin_instance": tree_src(table, t, "P"),
@@ -1151,9 +1228,12 @@ def run_flat(ctx: vlib.Ctx, cases: list[str], case_info: list):
     rng = ctx.rng
     n_classes = ctx.budget(260, 2600)
     for ci in range(n_classes):
-        entry = "codec" if rng.random() < 0.2 else "to_dict"
-        fields = gen_fields(rng)
-        o0 = gen_opts(rng, entry)
+        r = rng.random()
+        entry = "codec" if r < 0.2 else ("toml" if r < 0.32 else "to_dict")
+        fields = gen_fields(rng, shapes=TOML_SHAPES if entry == "toml" else None)
+        o0 = gen_opts(rng, "to_dict" if entry == "toml" else entry)
+        if entry == "toml":
+            o0 = replace(o0, entry="toml", dd=("T", "U", "U"), lazy=False)
         src = flat_source(fields, o0)
         try:
             ns = load(src)
@@ -1289,7 +1369,7 @@ def run(ctx: vlib.Ctx):
         "lattice: fixed 6-field family x every (call, Config.dialect, Config) namespace triple (thorough: all 21168, "
         "quick: slice); nested: class tables of 2-5 classes (mixin subclasses, plain dataclasses with a Config, plain "
         "dataclasses without Config) with independent option vectors (Config, Config.dialect, flags, lazy) defined in a "
-        "random dependency-respecting order, direct / Optional / Union[...] / List[...] dataclass fields, EVERY mixin "
+        "random dependency-respecting order, direct / Optional / Union[...] / List[...] / Dict[str, ...] dataclass fields, EVERY mixin "
         "class used as root in random call order (a shared plain class meets its first builder through different "
         "owners), random instance trees, root keyword arguments incl. call dialect; the nested part of every output is "
         "compared with the nested class's own projection (own plain serialization when it set nothing); history: "
@@ -1334,19 +1414,22 @@ def run(ctx: vlib.Ctx):
            "C08_spec_sorted", "C08_spec_values"]
     ctx.theorems("props/C08_kernel_K3.vo", ["K3_order", "K3_look"], kernels=["K3"])
     ctx.theorems("props/C08_kernel_K8.vo", ["K8_forward", "K8_use_kwargs"], kernels=["K8"])
+    ctx.theorems("props/C08_kernel_K13F.vo", ["K13F_defaults", "C08_ctx_kw_defaults"], kernels=["K13F", "K3"])
     ctx.theorems("props/C08_kernel_K14.vo", ["K14_passdown", "K14_pass_dd"], kernels=["K14"])
     ctx.theorems("props/C08_kernel_K17.vo", ["K17_nullable"], kernels=["K17"])
     ctx.theorems("props/C08_kernel_K18.vo", ["K18_bookkeeping", "K18_use_kwargs"], kernels=["K18", "K8"])
     ctx.theorems("props/C08_project.vo", thm)
-    ctx.theorems("props/C08_nested.vo", ["C08_nested_partial", "C08_union_flags_refuted", "C08_forwarded_exactly", "C08_no_leak",
-                                            "C08_option_free_is_plain", "C08_codec_partial", "C08_codec_obj", "C08_codec_no_leak"])
+    ctx.theorems("props/C08_fix.vo", ["C08_project_fixed_full"])
+    ctx.theorems("props/C08_nested.vo", ["C08_nested_partial", "C08_union_flags_refuted", "C08_subclass_flags_refuted", "C08_forwarded_exactly", "C08_no_leak",
+                                            "C08_option_free_is_plain", "C08_list_elementwise", "C08_dict_elementwise",
+                                            "C08_codec_partial", "C08_codec_obj", "C08_codec_no_leak"])
 
     if not ctx.quick():
         # second opinion: the independent checker on the compiled property files
         with vlib.Lock("build"):
             rc, out, _ = vlib.run(["timeout", "600", "coqchk", "-silent", "-o", "-Q", "theories", "Verif", "-Q", "gen", "VerifGen",
                                    "-Q", "props", "VerifProps", "VerifProps.C08_project", "VerifProps.C08_nested",
-                                   "VerifProps.C08_kernel_K3", "VerifProps.C08_kernel_K8", "VerifProps.C08_kernel_K14", "VerifProps.C08_kernel_K17", "VerifProps.C08_kernel_K18"], cwd=vlib.COQ, timeout=640)
+                                   "VerifProps.C08_kernel_K3", "VerifProps.C08_kernel_K8", "VerifProps.C08_kernel_K14", "VerifProps.C08_kernel_K17", "VerifProps.C08_kernel_K18", "VerifProps.C08_kernel_K13F"], cwd=vlib.COQ, timeout=640)
         ok = rc == 0 and "Axioms: <none>" in out
         ctx.obligation("coqchk -o (C08_project, C08_nested, C08_kernel_K3, C08_kernel_K8): no axioms", ok, out[-600:])
         if not ok:
@@ -1458,6 +1541,9 @@ def replay(rep: dict) -> int:
             from mashumaro.codecs.json import JSONEncoder
             dd = ns[rep["default_dialect"]] if rep.get("default_dialect") else None
             got = _json.loads(JSONEncoder(ns[rep["cls"]], default_dialect=dd).encode(inst))
+        elif rep.get("entry") == "toml":
+            import tomllib
+            got = tomllib.loads(eval(f"_x.to_toml({rep['kwargs']})", dict(ns, _x=inst)))
         elif rep.get("entry") == "codec":
             from mashumaro.codecs.basic import BasicEncoder
             dd = ns[rep["default_dialect"]] if rep.get("default_dialect") else None
